@@ -38,7 +38,7 @@ def run_ser(pid, tier, seed, final_op, fmts, opts_quick, opts_thorough, clauses,
     wallA = wallB = 0.0
     nsetup = {}
     for (mode, depth, extra, ks, os_) in runs:
-        invs = ("IndexOK",) + (("JsonDenotes", "JsonRoundTrip") if "json" in fmts else ()) + (("XmlDenotes",) if "xml" in fmts else ()) \
+        invs = ("IndexOK",) + (("JsonDenotes", "JsonRoundTrip") if "json" in fmts else ()) + (("XmlDenotes", "XmlRoundTrip") if "xml" in fmts else ()) \
             + (("ProvNDenotes",) if "provn" in fmts else ())
         A = tlcrun.run_mc(pid + "/A", "MC_Ser", cfg(mode, depth, final_op, fmts, os_, extra, ks, invs=invs), workers=16,
                           timeout=3000, heap="16g")
